@@ -3,7 +3,7 @@
    the model's order; the children are started concurrently in one task group; an Exception out
    of prepare()/start() is wrapped with the phase word the model's `Aborted` carries. *)
 From Coq Require Import List Bool Arith.
-From Asphalt Require Import Conc.Startup Gen.Gen_startup.
+From Asphalt Require Import Conc.Startup Gen.Gen_startup Gen.Gen_compctx.
 Import ListNotations.
 
 (* the model's phase a block of the source corresponds to, by rank *)
@@ -35,4 +35,19 @@ Proof. repeat split. Qed.
 
 Theorem error_wrapping_in_source :
   startup_prepare_phase_word_ok = true /\ startup_start_phase_word_ok = true /\ startup_wraps_exceptions_only = true.
+Proof. repeat split. Qed.
+
+(* the name a publication lands under (computed from ComponentContext.add_resource / add_resource_factory as
+   read on this run): `default` becomes the alias's name in start() -- for resources and for factories --,
+   and nothing else is ever renamed *)
+Theorem default_name_remapping : forall cc n,
+  eff_name cc true 0 = dname cc /\ eff_name_fac cc true 0 = dname cc /\
+  eff_name cc false n = n /\ eff_name_fac cc false n = n /\
+  eff_name cc true (S n) = S n /\ eff_name_fac cc true (S n) = S n.
+Proof. intros. repeat split. Qed.
+
+Theorem component_context_source_shape :
+  cc_delegates_to_surrounding_context = true /\ cc_optional_never_waits = true /\
+  cc_lookup_before_waiting = true /\ cc_wait_filters_by_name = true /\
+  cc_wait_filters_by_type_membership = true /\ cc_lookup_again_after_wake = true.
 Proof. repeat split. Qed.
